@@ -62,6 +62,11 @@ func vC02BlockReader(N int, smallLimit bool) {
 			vAssert("clean-eof-only-at-boundary", consumed == 0 || (zl && consumed == 1 && src.data[before] == 0))
 			vCover("clean-eof", consumed == 0)
 			vCover("null-padding-eof", consumed == 1)
+			// the reader stays usable after its end (no panic, no block out of nowhere)
+			if consumed == 0 {
+				again, aerr := br.Next()
+				vAssert("nothing-after-the-end", again == nil && aerr != nil)
+			}
 			return
 		}
 		vCover("error-reported", true)
